@@ -124,7 +124,7 @@ func copiesOf(v ssa.Value) map[ssa.Value]bool {
 }
 
 type ownUse struct {
-	kind  string // next, close, defer-close, wrapped, handed, captured, other
+	kind  string         // next, close, defer-close, wrapped, handed, captured, other
 	param *ssa.Parameter // captured: the literal receives the value as this parameter (go func(src Stream[T]) {...}(s))
 	in    ssa.Instruction
 	field string        // wrapped: field name
@@ -399,6 +399,7 @@ func ruleOwnParams(c *Ctx, r *R) {
 		key := op.name + "|" + op.param.Name()
 		uses := usesOfOwned(op.param)
 		forms := map[string]bool{}
+		nested := map[*ssa.Alloc]*ssa.Alloc{}
 		var details []string
 		otherUse := ""
 		var heldUse ownUse
@@ -411,6 +412,12 @@ func ruleOwnParams(c *Ctx, r *R) {
 				if allocReturned(u.strct) {
 					forms["wrapped"] = true
 					details = append(details, "FIELD "+typeShort(u.strct.Type())+"."+u.field)
+				} else if outer, ofield := enclosingReturnedAlloc(u.strct); outer != nil {
+					// &runsStream{peek: &peekable{inner: s}}: the wrapper that holds s is itself held, under its own type, by
+					// the wrapper that is returned (each wrapper's Close is judged by C09.close-forwards)
+					forms["wrapped"] = true
+					details = append(details, "FIELD "+typeShort(u.strct.Type())+"."+u.field+" INSIDE "+typeShort(outer.Type())+"."+ofield)
+					nested[u.strct] = outer
 				} else if heldByHelperObject(c, op, u) != nil {
 					forms["held"] = true
 					heldUse = u
@@ -485,6 +492,11 @@ func ruleOwnParams(c *Ctx, r *R) {
 					for cp := range copiesOf(u.strct) {
 						wrappers[cp] = true
 					}
+					if outer := nested[u.strct]; outer != nil {
+						for cp := range copiesOf(outer) {
+							wrappers[cp] = true
+						}
+					}
 				}
 			}
 			var dropRet *ssa.Return
@@ -556,6 +568,49 @@ func typeShort(t types.Type) string {
 }
 
 // allocReturned: the struct literal (its address, possibly converted to an interface) is a result of the function.
+// enclosingReturnedAlloc: al (a wrapper struct of the package, with a Close method of its own) is stored, as a pointer of its
+// own concrete type, into a field of another freshly allocated struct that is returned; that struct and the field.
+func enclosingReturnedAlloc(al *ssa.Alloc) (*ssa.Alloc, string) {
+	if ms := typeMethodSet(al.Type()); ms == nil || ms.Lookup(nil, "Close") == nil && lookupMethodAnyPkg(ms, "Close") == nil {
+		return nil, ""
+	}
+	for cp := range copiesOf(al) {
+		if cp.Referrers() == nil {
+			continue
+		}
+		for _, ref := range *cp.Referrers() {
+			st, ok := ref.(*ssa.Store)
+			if !ok || st.Val != cp {
+				continue
+			}
+			fa, ok := st.Addr.(*ssa.FieldAddr)
+			if !ok {
+				continue
+			}
+			outer, ok := fa.X.(*ssa.Alloc)
+			if !ok || outer == al || !allocReturned(outer) {
+				continue
+			}
+			if _, isIface := fa.Type().(*types.Pointer).Elem().Underlying().(*types.Interface); isIface {
+				continue
+			}
+			return outer, fieldName(fa.X.Type(), fa.Field)
+		}
+	}
+	return nil, ""
+}
+
+func typeMethodSet(t types.Type) *types.MethodSet { return types.NewMethodSet(t) }
+
+func lookupMethodAnyPkg(ms *types.MethodSet, name string) *types.Selection {
+	for i := 0; i < ms.Len(); i++ {
+		if ms.At(i).Obj().Name() == name {
+			return ms.At(i)
+		}
+	}
+	return nil
+}
+
 func allocReturned(al *ssa.Alloc) bool {
 	for cp := range copiesOf(al) {
 		if cp.Referrers() == nil {
